@@ -51,7 +51,7 @@ def build_asan_driver(repo: Path) -> Path:
         return out
     out.parent.mkdir(parents=True, exist_ok=True)
     tmp = out.with_suffix(f'.{os.getpid()}.tmp')
-    cmd = ['clang++', '-std=c++17', '-O1', '-g', '-fsanitize=address', '-fno-omit-frame-pointer',
+    cmd = ['clang++', '-std=c++17', '-O1', '-g', '-fsanitize=address', '-fsanitize-recover=address', '-fno-omit-frame-pointer',
            '-mpclmul', '-msse4.1', '-mavx', f'-I{SHIM}', f'-DREPLICAT_ADAPTERS_CPP="{cpp}"',
            str(SHIM / 'drv.cpp'), '-o', str(tmp)]
     r = subprocess.run(cmd, capture_output=True, text=True)
